@@ -245,4 +245,13 @@ theorem vectorize_no_depths (interp : List (α × α) → α → α) (sweep : Li
   cases start <;> cases stop <;> simp [pyGet?, List.foldlM, pure, Except.pure, GridObj.new, sizeZero]
 
 end
+
+/-! non-vacuity of the hypotheses of `vectorize_eq_model` (a stored tent; a lazy object whose sweep gives a tent) and of
+    `vectorize_no_depths` (an empty diagram) -/
+example : (ExactObj.compute_landscape (fun _ => []) (⟨0, ([] : List Unit), [[(0, 0), (1, 1), (2, 0)]]⟩ : ExactObj Rat Unit)).critical_pairs ≠ [] := by
+  decide
+example : (ExactObj.compute_landscape (fun _ => [[(0, 0), (1, 1), (2, 0)]]) (⟨0, [()], []⟩ : ExactObj Rat Unit)).critical_pairs ≠ [] := by
+  decide
+example : (ExactObj.compute_landscape (fun _ => []) (⟨0, ([] : List Unit), []⟩ : ExactObj Rat Unit)).critical_pairs = [] := rfl
+
 end PersimVerif.SrcBridge.LandscapeVec
